@@ -7,6 +7,26 @@ use monitor::report::{catch, jobj, jstr, Report};
 use monitor::rng::Rng;
 use parity_scale_codec::{Compact, CompactLen, Decode, Encode};
 
+/// An input that cannot tell how much is left (what a stream reader is): the compact decoders must
+/// accept and reject exactly the same strings through it.
+struct NoLen<'a>(&'a [u8]);
+impl<'a> parity_scale_codec::Input for NoLen<'a> {
+	#[inline]
+	fn remaining_len(&mut self) -> Result<Option<usize>, parity_scale_codec::Error> {
+		Ok(None)
+	}
+	#[inline]
+	fn read(&mut self, into: &mut [u8]) -> Result<(), parity_scale_codec::Error> {
+		if into.len() > self.0.len() {
+			return Err("eof".into());
+		}
+		let (a, b) = self.0.split_at(into.len());
+		into.copy_from_slice(a);
+		self.0 = b;
+		Ok(())
+	}
+}
+
 fn viol(rep: &mut Report, sig: &str, msg: String, bits: u32, bytes: &[u8]) {
 	rep.violation(
 		sig,
@@ -54,6 +74,17 @@ macro_rules! width_fns {
 			let mut s = b;
 			let real = <Compact<$t>>::decode(&mut s);
 			let used = b.len() - s.len();
+			// the same string through an input of unknown length
+			let mut nl = NoLen(b);
+			let streamed = <Compact<$t>>::decode(&mut nl);
+			let same = match (&real, &streamed) {
+				(Ok(Compact(a)), Ok(Compact(c))) => a == c && nl.0.len() == s.len(),
+				(Err(_), Err(_)) => true,
+				_ => false,
+			};
+			if !same {
+				viol(rep, concat!("compact-decode-input-kind:u", $bits), format!("{} decodes to {:?} from a slice but to {:?} from an input of unknown length", hex(b), real.as_ref().map(|c| c.0).ok(), streamed.as_ref().map(|c| c.0).ok()), $bits, b);
+			}
 			match (model, real) {
 				(Ok((v, n)), Ok(Compact(y))) => {
 					if v != y as u128 || n != used {
